@@ -533,7 +533,7 @@ def dev_offset_bad_start(rng, d):
         return None
     v, s = rng.choice(vs)
     s['earliest'] = BAD(rng)
-    s['latest'] = list(s['earliest'])
+    s['latest'] = rng.choice([None, T(0)])
     s['breaks'] = [['roff', 3600, 7200, 600]]
     return 'required-offset-break-unparsable-start'
 
